@@ -145,6 +145,17 @@ func (p *Program) parseContractText(pkg, file, text string) error {
 			}
 			cl.Exprs = []*Expr{l, r}
 		case "modifies", "noOverread", "fresh":
+			if cl.Kind == "fresh" {
+				// optional condition: fresh x, y if cond
+				if i := strings.LastIndex(cl.Text, " if "); i >= 0 {
+					ce, err := ParseExpr(strings.TrimSpace(cl.Text[i+4:]))
+					if err != nil {
+						return fmt.Errorf("%s:%d: %v", file, cl.Line, err)
+					}
+					cl.Expr = ce
+					cl.Text = strings.TrimSpace(cl.Text[:i])
+				}
+			}
 			if cl.Text == "nothing" || cl.Text == "" {
 				cl.Exprs = nil
 			} else {
